@@ -297,30 +297,39 @@ func c03exec(c *vt.Ctx, r c03run) {
 			}
 		}
 		stopped := false
+		releasedTag, answeredCB := map[string]bool{}, map[string]bool{}
 		for k, tag := range r.order {
 			if r.stopAt == k {
 				rig.Srv.Stop()
 				rig.Settle()
 				stopped = true
 			}
-			if r.kcb && isNote[tag] {
-				// answer the callback this notification's handler is waiting in (if it has been issued)
-				for _, rec := range rig.Outbound() {
-					var req struct {
-						ID     json.RawMessage `json:"id"`
-						Method string          `json:"method"`
-						Params struct {
-							T string `json:"t"`
-						} `json:"params"`
-					}
-					if json.Unmarshal(rec, &req) == nil && req.Method == "cb" && req.Params.T == tag {
-						rig.Send(`{"jsonrpc":"2.0","id":` + string(req.ID) + `,"result":"r"}`)
-						c.Count("callbacks_from_notifications_answered", 1)
+			releasedTag[tag] = true
+			rig.H.Release(tag)
+			rig.Settle()
+			if r.kcb {
+				// answer the callbacks of every released notification as they appear on the wire
+				// (a notification released before its turn issues its callback later)
+				for progress := true; progress; {
+					progress = false
+					for _, rec := range rig.Outbound() {
+						var req struct {
+							ID     json.RawMessage `json:"id"`
+							Method string          `json:"method"`
+							Params struct {
+								T string `json:"t"`
+							} `json:"params"`
+						}
+						if json.Unmarshal(rec, &req) == nil && req.Method == "cb" && releasedTag[req.Params.T] && !answeredCB[req.Params.T] {
+							answeredCB[req.Params.T] = true
+							rig.Send(`{"jsonrpc":"2.0","id":` + string(req.ID) + `,"result":"r"}`)
+							rig.Settle()
+							c.Count("callbacks_from_notifications_answered", 1)
+							progress = true
+						}
 					}
 				}
 			}
-			rig.H.Release(tag)
-			rig.Settle()
 			if stopped {
 				c03afterStop(c, rig.Log, msgs, fmt.Sprintf("after Stop and release %d (%s)", k, tag), false)
 			} else {
